@@ -14,7 +14,7 @@ use std::os::unix::fs::{DirEntryExt, MetadataExt};
 use std::path::{Path, PathBuf};
 use std::rc::Rc;
 
-use chrono::{DateTime, Local};
+
 #[cfg(feature = "git")]
 use git2::Repository;
 use lscolors::{LsColors, Style};
@@ -1502,8 +1502,10 @@ impl<'a> Searcher<'a> {
 
                 if let Some(ref attrs) = self.fms.file_metadata {
                     if let Ok(sdt) = attrs.created() {
-                        let dt: DateTime<Local> = DateTime::from(sdt);
-                        return Variant::from_datetime(dt.naive_local());
+                        // a time stamp beyond what a date can express is no date
+                        if let Some(dt) = crate::util::system_time_to_local(sdt) {
+                            return Variant::from_datetime(dt);
+                        }
                     }
                 }
             }
@@ -1513,8 +1515,10 @@ impl<'a> Searcher<'a> {
 
                 if let Some(ref attrs) = self.fms.file_metadata {
                     if let Ok(sdt) = attrs.accessed() {
-                        let dt: DateTime<Local> = DateTime::from(sdt);
-                        return Variant::from_datetime(dt.naive_local());
+                        // a time stamp beyond what a date can express is no date
+                        if let Some(dt) = crate::util::system_time_to_local(sdt) {
+                            return Variant::from_datetime(dt);
+                        }
                     }
                 }
             }
@@ -1531,8 +1535,10 @@ impl<'a> Searcher<'a> {
 
                     if let Some(ref attrs) = self.fms.file_metadata {
                         if let Ok(sdt) = attrs.modified() {
-                            let dt: DateTime<Local> = DateTime::from(sdt);
-                            return Variant::from_datetime(dt.naive_local());
+                            // a time stamp beyond what a date can express is no date
+                            if let Some(dt) = crate::util::system_time_to_local(sdt) {
+                                return Variant::from_datetime(dt);
+                            }
                         }
                     }
                 }
